@@ -18,8 +18,9 @@ UKINDS = [("KNs", "None", "None"), ("KNs", "None", "None"), ("KCrd", "None", "No
           ("KPlain", "(Some 0)", "(Some 2)"), ("KNs", "None", "None")]
 CRD_OF = {5: 2, 6: 3, 7: 2}
 NID = 9
-# DYN_WF = crd (default): the boolean WF filter also requires "a custom resource in the cluster has its CRD in the cluster"
-DYN_WF = os.environ.get("DYN_WF", "crd")
+# DYN_WF = wf (default): the official wf_b (its clause 8: a TRACKED custom resource of the cluster has its CRD in the cluster);
+# DYN_WF = crd: additionally every custom resource of the cluster has its CRD in the cluster
+DYN_WF = os.environ.get("DYN_WF", "wf")
 FIN_P = float(os.environ.get("FIN_P", "0.3"))
 FIN_CLAUSE = os.environ.get("FIN_CLAUSE", "full")
 FIN_WF = os.environ.get("FIN_WF", "full")
